@@ -1,5 +1,5 @@
 use crate::matcher::{Matcher, NodeMatch};
-use crate::meta_var::{is_valid_meta_var_char, MetaVariableID};
+use crate::meta_var::{is_valid_first_char, is_valid_meta_var_char, MetaVariableID};
 use crate::source::Edit as E;
 use crate::{Doc, Node, Root};
 use std::ops::Range;
@@ -108,6 +108,11 @@ fn split_first_meta_var(
     return None;
   }
   let name = src[skipped..skipped + i].to_string();
+  // a meta variable name does not start with a digit: `$100` in a template is literal text
+  // (a transformation may be called anything)
+  if !name.starts_with(is_valid_first_char) && !transform.contains(&name) {
+    return None;
+  }
   let var = if is_multi {
     MetaVarExtract::Multiple(name)
   } else if transform.contains(&name) {
